@@ -305,6 +305,7 @@ class Check:
         self.inconclusive = 0
         self.evaluations = 0
         self.distinct = set()
+        self.distinct_extra = 0   # distinct cases counted by the worker itself (not materialised here)
         self.samples = []
         self.counters = {}
         self.assumptions = []
@@ -381,7 +382,7 @@ class Check:
                 print("KNOWN-FINDING: property=%s %s (%s; matched %d times)" % (self.pid, e["id"], e["what"], self.known_hits[e["id"]]), flush=True)
         cov = {
             "evaluations": self.evaluations,
-            "distinct_nontrivial": len(self.distinct),
+            "distinct_nontrivial": len(self.distinct) + self.distinct_extra,
             "rule": self.rule,
             "samples": self.samples[:10] or ["<none>"],
             "inconclusive": self.inconclusive,
@@ -397,10 +398,10 @@ class Check:
         with open(os.path.join(VERIF, "evidence", self.pid + ".json"), "w") as f:
             json.dump(ev, f, indent=1, ensure_ascii=False)
         log("[%s] %s: evaluations=%d distinct=%d inconclusive=%d violations=%d known=%s wall=%.1fs" % (
-            self.pid, self.tier, self.evaluations, len(self.distinct), self.inconclusive, len(self.violations), self.known_hits, wall))
+            self.pid, self.tier, self.evaluations, len(self.distinct) + self.distinct_extra, self.inconclusive, len(self.violations), self.known_hits, wall))
         if self.violations:
             return 1
-        if self.evaluations < min_events or len(self.distinct) < 2:
+        if self.evaluations < min_events or len(self.distinct) + self.distinct_extra < 2:
             log("[%s] check did not observe enough" % self.pid)
             return 2
         if self.evaluations and self.inconclusive > max(2, 0.02 * self.evaluations):
